@@ -14,6 +14,12 @@ claimed={
  "C06":dict(text="Escaper tables read from the replacers' initialisers and proved equal to the statement's escape function for every rune; ScanString's loop proved to implement the spec scan step on a ghost rune stream (kind, rune appended, runes consumed); SMT lemmas over all runes: scan step inverts the escape, escaped text can never terminate or break the literal, consumes exactly the escape; character classes equal the README classes; QuoteString wraps the replaced text in quotes.",
    undecided=["sequence-level statement ScanString(QuoteString(s)) == s is the induction over the per-rune lemmas (paper)","IdentNeedsQuotes equivalence with the bare scan, QuoteIdent segment rule, scanIdent: not yet under contract","strings.Replacer with single-ASCII-byte patterns rewrites rune by rune (trusted)"],
    design="DESIGN.md §3 C06"),
+ "C09":dict(text="Each reduceBinaryExpr<Kind>LHS function (boolean, integer, unsigned, float, string left operands) is proved, for every operator and every well-typed literal right operand and all operand values, to return either a literal whose value equals what the evaluator's evalBinaryExpr computes for the unfolded node (the real evaluator body is symbolically executed as the specification, integer division as float division) or a node with the same operator; ValuerEval.Eval on literals returns the literal's value.",
+   undecided=["AND/OR short cuts of reduceBinaryExpr with a non-literal operand, reduceCall/reduceVarRef/reduceParenExpr, idempotence of Reduce, time and duration cells: not yet under contract","composition over whole expression trees is the induction over nodes (paper)","float operations are uninterpreted functions (both sides must apply the same operation to the same operands)","known finding F-C09-1: strings that look like time literals"],
+   design="DESIGN.md §3 C09"),
+ "C19":dict(text="All 45 RequiredPrivileges methods under contract: every administrative statement of the property's list returns an admin privilege, database-scoped statements name their database with the documented privilege, every fixed-table statement returns a non-empty list and nil error; Sources.RequiredPrivileges has per-iteration step clauses (a measurement appends exactly one read privilege on its database, a subquery appends exactly its statement's privileges, earlier entries are kept); SELECT with INTO ends with a write privilege on the target database; EXPLAIN and CREATE CONTINUOUS QUERY covered.",
+   undecided=["coverage of every measurement at every depth is the induction over the loop step clauses and the recursion (paper)","nil error of SELECT over arbitrary nesting depends on the AST invariant (sources are measurements or subqueries), which is assumed for parser output"],
+   design="DESIGN.md §3 C19"),
 }
 checks=[]
 for pid,c in sorted(claimed.items()):
